@@ -163,6 +163,33 @@ theorem script_step {s s' : St} {op : Op} (J : ScriptInv s) (hop : op.good)
       rw [hg, hn, hf, ext_delEdge J.inv ha1 ha2 hb]
       exact J.held x hx
     · cases h
+  | deref a b =>
+    simp only [apply] at h
+    split at h
+    · next hc =>
+      simp only [Option.some.injEq] at h
+      subst h
+      obtain ⟨_, ha2, _⟩ := J.held a hc.2.1
+      have hmem : b ∈ (s.g.nodes.get a).owned := by
+        have := hc.2.2.2; simpa [State.node] using this
+      have h1 : b < s.g.nextId := J.inv.wf a b hmem
+      have h2 : (s.g.nodes.get b).freed = false := J.inv.noDangling a b ha2 hmem
+      have F := rcOnly_incRef h2
+      refine ⟨gcinv_incRef J.inv h1 h2, fun x hx => ?_⟩
+      simp only [Store.get_set] at hx ⊢
+      show x < (incRef s.g b).nextId ∧ ((incRef s.g b).nodes.get x).freed = false ∧ _
+      rw [F.nextId, F.freed]
+      by_cases hi : x = b
+      · subst hi
+        rw [if_pos rfl, ext_incRef_self J.inv h2]
+        by_cases h0 : 0 < s.handles.get x
+        · obtain ⟨_, _, h3⟩ := J.held x h0
+          exact ⟨h1, h2, by omega⟩
+        · exact ⟨h1, h2, by omega⟩
+      · rw [if_neg hi] at hx ⊢
+        rw [ext_incRef_other h2 hi]
+        exact J.held x hx
+    · cases h
   | updrop a =>
     have hg := apply_updrop_g h
     simp only [apply] at h
